@@ -129,6 +129,10 @@ func (e *Env) target(name string) (godi.Provider, bool) {
 func (e *Env) Do(op Op) *Res {
 	r := &Res{Op: op, Thread: vsched.ThreadID()}
 	e.Results = append(e.Results, r)
+	if op.Kind == "get" || op.Kind == "group" || op.Kind == "scope" {
+		e.W.OpBegin()
+		defer e.W.OpEnd()
+	}
 	if op.Kind == "settle" {
 		vsched.Settle()
 		r.Start = e.W.Mark("settle")
